@@ -46,6 +46,9 @@ pub fn special_texts() -> Vec<String> {
     for p in [8usize, 64, 4096, 65_536] {
         for blank in [" ", "\n", "\t"] {
             for c in ["A", "_", "{", "@", "é", "$"] {
+                if p > 4096 && (blank != " " || (c != "A" && c != "@")) {
+                    continue;
+                }
                 for off in [0usize, 1, p - 1] {
                     let mut t = blank.repeat(p + off);
                     t.push_str(c);
